@@ -128,3 +128,95 @@ type c07Counter struct{ n int }
 
 func (c *c07Counter) Put(key []byte, value []byte) { c.n++ }
 func (c *c07Counter) Delete(key []byte)            { c.n++ }
+
+type c07KV struct {
+	k []byte
+	v []byte // nil = tombstone as reported by the iterator
+}
+
+func c07Scan(d DB, prefix []byte) []c07KV {
+	it := d.NewIterator(prefix)
+	defer it.Release()
+	var out []c07KV
+	for it.Next() {
+		k := append([]byte{}, it.Key()...)
+		var v []byte
+		if val := it.Value(); val != nil {
+			v = append([]byte{}, val...)
+		}
+		out = append(out, c07KV{k, v})
+		verifAssert(len(out) <= 8, "scan terminates")
+	}
+	verifAssert(it.Error() == nil, "no iterator error")
+	return out
+}
+
+// c07Universe in byte order
+var c07Universe = [][]byte{{'a'}, {'a', 'b'}, {'b'}}
+
+// VerifC07OrderedScan: an ordered prefix scan over a view (a snapshot with its own writes on top of its parent)
+// yields exactly the keys under the prefix, in byte order, each once, the upper layer winning; a key deleted in the
+// view is reported with a nil value (callers skip it) or not at all, never with a stale value.
+func VerifC07OrderedScan() {
+	parent := NewMemDB()
+	ref := c06RefLocal{}
+	for i := 0; i < verifParam("parent", 2); i++ {
+		if verifNondetBool("parent has entry") {
+			k, v := c07Key("pk"), c07Val("pv")
+			verifAssert(parent.Put(k, v) == nil, "put")
+			ref[string(k)] = v
+		}
+	}
+	child := parent.Snapshot()
+	deleted := map[string]bool{}
+	n := verifNondetLen("writes", 0, verifParam("writes", 2))
+	for i := 0; i < n; i++ {
+		k := c07Key("wk")
+		if verifNondetBool("is delete") {
+			verifAssert(child.Delete(k) == nil, "delete")
+			delete(ref, string(k))
+			deleted[string(k)] = true
+		} else {
+			v := c07Val("wv")
+			verifAssert(child.Put(k, v) == nil, "put")
+			ref[string(k)] = v
+			delete(deleted, string(k))
+		}
+	}
+	prefixes := [][]byte{{}, {'a'}, {'a', 'b'}, {'b'}, {'c'}}
+	prefix := prefixes[verifNondetLen("prefix (index into {'', a, ab, b, c})", 0, 4)]
+	got := c07Scan(child, prefix)
+	// reference: universe keys with the prefix, in order
+	var want []c07KV
+	for _, k := range c07Universe {
+		if len(k) < len(prefix) || !bytes.Equal(k[:len(prefix)], prefix) {
+			continue
+		}
+		if v, ok := ref[string(k)]; ok {
+			want = append(want, c07KV{k, v})
+		}
+	}
+	// compare after dropping tombstones (nil values) from the scan
+	var live []c07KV
+	for i, e := range got {
+		if i > 0 {
+			verifAssert(bytes.Compare(got[i-1].k, e.k) < 0, "keys strictly increasing: ordered and each key once")
+		}
+		verifAssert(len(e.k) >= len(prefix) && bytes.Equal(e.k[:len(prefix)], prefix), "only keys under the prefix")
+		if e.v == nil {
+			verifAssert(deleted[string(e.k)], "a nil value is reported only for a key deleted in this view")
+			continue
+		}
+		live = append(live, e)
+	}
+	verifReach("non-empty scan", len(live) > 0)
+	verifReach("scan with a tombstone", len(live) < len(got))
+	verifAssert(len(live) == len(want), "exactly the live keys under the prefix")
+	for i := range live {
+		if i < len(want) {
+			verifAssert(bytes.Equal(live[i].k, want[i].k) && bytes.Equal(live[i].v, want[i].v), "key and value = reference (upper layer wins)")
+		}
+	}
+}
+
+type c06RefLocal map[string][]byte
